@@ -164,6 +164,10 @@ pub struct Link {
     pub ready_due: bool,
     /// the link stopped draining (slow consumer)
     pub stalled: bool,
+    /// topic-alias-maximum this connection announced in CONNECT
+    pub alias_max: u16,
+    /// what an MQTT 5 client remembers of the aliases the broker established
+    pub aliases: std::collections::BTreeMap<u16, String>,
 }
 
 pub struct Client {
@@ -477,7 +481,26 @@ impl RouterWorld {
         true
     }
 
-    fn received(&mut self, ci: usize, rx: Rx) {
+    fn received(&mut self, ci: usize, mut rx: Rx) {
+        // an MQTT 5 client resolves the topic aliases the broker establishes (MQTT 5, 3.3.2.3.4)
+        if let Rx::Publish { topic, props: Some(p), .. } = &mut rx {
+            if let (Some(a), Some(l)) = (p.alias, self.clients[ci].link.as_mut()) {
+                let mut bad = None;
+                if a == 0 || a > l.alias_max {
+                    bad = Some(format!("alias {a} outside the announced maximum {}", l.alias_max));
+                } else if topic.is_empty() {
+                    match l.aliases.get(&a) {
+                        Some(t) => *topic = t.clone(),
+                        None => bad = Some(format!("alias {a} used with an empty topic before it was established")),
+                    }
+                } else {
+                    l.aliases.insert(a, topic.clone());
+                }
+                if let Some(d) = bad {
+                    self.viol("bad_topic_alias", format!("towards {}: {d}", NAMES[ci]));
+                }
+            }
+        }
         {
             let c = &mut self.clients[ci];
             match &rx {
@@ -725,6 +748,8 @@ impl RouterWorld {
                     pushed: vec![],
                     ready_due: false,
                     stalled: false,
+                    alias_max: topic_alias_max,
+                    aliases: Default::default(),
                 });
                 self.clients[ci].unacked.clear();
                 self.clients[ci].rels.clear();
@@ -853,6 +878,7 @@ impl RouterWorld {
                     l.pushed.hash(h);
                     l.ready_due.hash(h);
                     l.stalled.hash(h);
+                    l.aliases.hash(h);
                     let ob = l.obuf.lock();
                     ob.len().hash(h);
                     if !ob.is_empty() {
